@@ -317,6 +317,176 @@ const GO_PKGS: [(&str, &str); 9] = [
     ("regexp/syntax", "Simplify"),
 ];
 
+// ------------------------------------------- closures stored in struct fields (C08, C01, C02)
+//
+// A struct with two to four function-typed fields (two field types) between plain fields, built at ONE
+// site (a constructor function or main) with a plain top-level function or a closure literal per field
+// in every mixture and order; the closures capture the constructor's parameters and a Ref cell. The
+// fields are read back and called (in main or in a helper that takes the struct), some twice. The
+// expected output comes from a direct evaluation of the chosen bodies. (One construction site only:
+// a second site with other closures is the open finding KF-05.)
+fn make_fnfields_case(bytes: &[u8]) -> Case {
+    let mut d = Dec::new(bytes);
+    // (is_string, body kind)
+    let nf = 2 + d.below(3);
+    let mut fields: Vec<(String, Option<(bool, usize)>)> = vec![];
+    let mut labels: Vec<String> = vec!["directed".into(), "fnfields".into(), "adt:struct".into(), "closure".into(), "tick".into()];
+    let mut has_cell_field = false;
+    for i in 0..nf {
+        // plain fields in between
+        if d.chance(90) {
+            match d.below(3) {
+                0 => fields.push((format!("label{i}"), None)),
+                1 if !has_cell_field => {
+                    has_cell_field = true;
+                    fields.push(("cell".into(), None));
+                }
+                _ => fields.push((format!("count{i}"), None)),
+            }
+        }
+        let is_str = d.chance(80);
+        // int: 0 double, 1 inc (plain functions); 2 add-by, 3 step (stateful), 4 times-k (closures)
+        // string: 0 shout (plain function); 1 tag, 2 bang (closures)
+        let kind = if is_str { d.below(3) } else { d.below(5) };
+        fields.push((format!("f{i}"), Some((is_str, kind))));
+    }
+    let is_closure = |f: &(bool, usize)| if f.0 { f.1 >= 1 } else { f.1 >= 2 };
+    let fnf: Vec<&(String, Option<(bool, usize)>)> = fields.iter().filter(|f| f.1.is_some()).collect();
+    let n_clo = fnf.iter().filter(|f| is_closure(&f.1.unwrap())).count();
+    let first_plain = fnf.iter().position(|f| !is_closure(&f.1.unwrap()));
+    let last_clo = fnf.iter().rposition(|f| is_closure(&f.1.unwrap()));
+    if n_clo >= 1 {
+        labels.push("closure:capture".into());
+        labels.push("closure:call".into());
+        labels.push("fnfields:closure-in-field".into());
+    }
+    if n_clo >= 2 {
+        labels.push("fnfields:two-closures".into());
+    }
+    if let (Some(a), Some(b)) = (first_plain, last_clo) {
+        if a < b {
+            labels.push("fnfields:plain-fn-before-closure".into());
+        }
+    }
+    let by = 2 + d.below(4) as i32;
+    let tag = ["t", "ab", "zz"][d.below(3)];
+    let in_ctor = d.chance(170);
+    labels.push(if in_ctor { "fnfields:constructor-fn".into() } else { "fnfields:built-in-main".into() });
+    // struct declaration
+    let mut decl = String::from("struct Kit {\n");
+    for (n, f) in &fields {
+        let t = match f {
+            Some((true, _)) => "(string) -> string",
+            Some((false, _)) => "(int32) -> int32",
+            None if n == "cell" => "Ref[int32]",
+            None if n.starts_with("label") => "string",
+            None => "int32",
+        };
+        decl.push_str(&format!("    {n}: {t},\n"));
+    }
+    decl.push_str("}\n\nfn double(x: int32) -> int32 {\n    x * 2\n}\n\nfn inc(x: int32) -> int32 {\n    x + 1\n}\n\nfn shout(s: string) -> string {\n    s + \"?\"\n}\n\n");
+    // the literal: declaration order or rotated
+    let mut order: Vec<usize> = (0..fields.len()).collect();
+    if d.chance(100) {
+        let r = 1 + d.below(fields.len().max(2) - 1);
+        order.rotate_left(r.min(fields.len() - 1));
+        labels.push("fnfields:literal-order-rotated".into());
+    }
+    let mut lit = String::from("Kit {\n");
+    for &i in &order {
+        let (n, f) = &fields[i];
+        let v = match f {
+            None if n == "cell" => "cell".to_string(),
+            None if n.starts_with("label") => "tag + \"-l\"".to_string(),
+            None => "by + 1".to_string(),
+            Some((false, 0)) => "double".into(),
+            Some((false, 1)) => "inc".into(),
+            Some((false, 2)) => "|n: int32| n + by".into(),
+            Some((false, 3)) => "|n: int32| {\n            let next = ref_get(cell) + by * n;\n            let _ = ref_set(cell, next);\n            next\n        }".into(),
+            Some((false, _)) => "|n: int32| n * 3".into(),
+            Some((true, 0)) => "shout".into(),
+            Some((true, 1)) => "|s: string| tag + s".into(),
+            Some((true, _)) => "|s: string| s + \"!\"".into(),
+        };
+        lit.push_str(&format!("        {n}: {v},\n"));
+    }
+    lit.push_str("    }");
+    let mut text = decl;
+    let via_helper = d.chance(100);
+    // (the helpers that read and call the fields come AFTER the construction site: a reader defined
+    // before it is the KF-05 shape)
+    let mut helpers = String::new();
+    if via_helper {
+        labels.push("fnfields:called-in-helper".into());
+        for (n, f) in &fields {
+            match f {
+                Some((true, _)) => helpers.push_str(&format!("fn run_{n}(m: Kit, s: string) -> string {{\n    let f = m.{n};\n    f(s)\n}}\n\n")),
+                Some((false, _)) => helpers.push_str(&format!("fn run_{n}(m: Kit, n: int32) -> int32 {{\n    let f = m.{n};\n    f(n)\n}}\n\n")),
+                None => {}
+            }
+        }
+    }
+    if in_ctor {
+        text.push_str(&format!("fn make_kit(by: int32, tag: string) -> Kit {{\n    let cell = ref(0);\n    {lit}\n}}\n\n"));
+    }
+    text.push_str("fn main() {\n");
+    if in_ctor {
+        text.push_str(&format!("    let m = make_kit({by}, \"{tag}\");\n"));
+    } else {
+        text.push_str(&format!("    let by = {by};\n    let tag = \"{tag}\";\n    let cell = ref(0);\n    let m = {lit};\n"));
+    }
+    // the calls and their expected output
+    let mut out = String::new();
+    let mut cell: i32 = 0;
+    let ncalls = 2 + d.below(5);
+    let fn_idx: Vec<usize> = (0..fields.len()).filter(|i| fields[*i].1.is_some()).collect();
+    for c in 0..ncalls {
+        let i = fn_idx[d.below(fn_idx.len())];
+        let (n, f) = &fields[i];
+        let (is_str, kind) = f.unwrap();
+        if is_str {
+            let a = ["a", "bc", ""][d.below(3)];
+            let r = match kind {
+                0 => format!("{a}?"),
+                1 => format!("{tag}{a}"),
+                _ => format!("{a}!"),
+            };
+            let call = if via_helper { format!("run_{n}(m, \"{a}\")") } else { format!("g{c}(\"{a}\")") };
+            if !via_helper {
+                text.push_str(&format!("    let g{c} = m.{n};\n"));
+            }
+            text.push_str(&format!("    let _ = string_println(\"c{c}=\" + {call});\n"));
+            out.push_str(&format!("c{c}={r}\n"));
+        } else {
+            let a = d.below(10) as i32;
+            let r = match kind {
+                0 => a * 2,
+                1 => a + 1,
+                2 => a + by,
+                3 => {
+                    cell += by * a;
+                    cell
+                }
+                _ => a * 3,
+            };
+            let call = if via_helper { format!("run_{n}(m, {a})") } else { format!("g{c}({a})") };
+            if !via_helper {
+                text.push_str(&format!("    let g{c} = m.{n};\n"));
+            }
+            text.push_str(&format!("    let _ = string_println(\"c{c}=\" + int32_to_string({call}));\n"));
+            out.push_str(&format!("c{c}={r}\n"));
+        }
+    }
+    if has_cell_field {
+        text.push_str("    let _ = string_println(\"cell=\" + int32_to_string(ref_get(m.cell)));\n");
+        out.push_str(&format!("cell={cell}\n"));
+    }
+    text.push_str("    ()\n}\n\n");
+    text.push_str(&helpers);
+    let expected = Expected { stdout: out.into_bytes(), end: Ok(crate::refsem::End::Normal) };
+    Case::new(json!({"text": text, "expected": expected.to_json(), "instances": {}, "labels": labels}))
+}
+
 fn make_extern_case(bytes: &[u8]) -> Case {
     let mut d = Dec::new(bytes);
     let n = 1 + d.below(4);
@@ -599,6 +769,9 @@ impl Check for ProgCheck {
         if matches!(self.kind, Kind::C01 | Kind::C02 | Kind::C07) {
             v.push(PhaseSpec { name: "directed", cases: DIRECTED.len() as u64, max_bytes: 0, exhaustive: true });
         }
+        if matches!(self.kind, Kind::C01 | Kind::C02 | Kind::C08) {
+            v.push(PhaseSpec { name: "fnfields", cases: tier.pick(3_000, 60_000), max_bytes: 64, exhaustive: false });
+        }
         if self.kind == Kind::C01 {
             v.push(PhaseSpec {
                 name: "corpus",
@@ -628,6 +801,9 @@ impl Check for ProgCheck {
         }
         if phase == "extern" {
             return make_extern_case(bytes);
+        }
+        if phase == "fnfields" {
+            return make_fnfields_case(bytes);
         }
         if phase == "go" {
             return crate::gogen::make_go_case(bytes, if ctx.tier == Tier::Thorough { 1000 } else { 200 });
